@@ -614,6 +614,29 @@ func replayEncv(line []byte, a *Acc) {
 	if tagged.CanonGo(mv) != before {
 		a.Mis("encv:receiver-modified", "encoding modified the value "+before, l)
 	}
+	// ... and this value twice in one list: as two equal trees, and as one object met twice
+	if len(mv) > 0 {
+		mxj.XmlDefaultEmptyElemSyntax()
+		inner := map[string]interface{}(mv)
+		tree := mxj.Map{"p": []interface{}{inner, tagged.DeepCopyGo(inner)}}
+		graph := mxj.Map{"p": []interface{}{inner, inner}}
+		b1, e1 := tree.Xml()
+		b2, e2 := graph.Xml()
+		if string(b1) != string(b2) || (e1 != nil) != (e2 != nil) {
+			a.Mis("encv:shared-subdocuments", fmt.Sprintf("value %s twice in a list: as two equal trees Map.Xml() = (%q, %v); as one object met twice (%q, %v)", short(before), b1, e1, b2, e2), l)
+		}
+	}
+	// the same document with equal sub-documents held as ONE object (a graph without cycles is still this document): same bytes
+	if shared, ok := tagged.InternGo(map[string]interface{}(mv)).(map[string]interface{}); ok && tagged.SharedContainer(shared) != "" {
+		mxj.XmlDefaultEmptyElemSyntax()
+		b1, e1 := mv.Xml()
+		b2, e2 := mxj.Map(shared).Xml()
+		i1, e3 := mv.XmlIndent("", " ")
+		i2, e4 := mxj.Map(shared).XmlIndent("", " ")
+		if string(b1) != string(b2) || (e1 != nil) != (e2 != nil) || string(i1) != string(i2) || (e3 != nil) != (e4 != nil) {
+			a.Mis("encv:shared-subdocuments", fmt.Sprintf("value %s: Map.Xml() = (%q, %v); with equal sub-documents held as one object (%q, %v); indented (%v / %v)", short(before), b1, e1, b2, e2, e3, e4), l)
+		}
+	}
 	a.Count(len(l.Cs)+len(l.Vs), nontriv)
 	if len(l.M.KV) > 2 {
 		a.Sample(map[string]interface{}{"value": before, "expected": l.Cs[0]})
